@@ -130,13 +130,28 @@ def install_seams():
     reg.code_registry if hasattr(reg, "code_registry") else None
     import ptera.probe as pp
 
-    gp = OrderedSet()
-    for p in list(pp.global_probes):  # pragma: no cover - always empty
-        gp.add(p)
-    pp.global_probes = gp
+    if isinstance(getattr(pp, "global_probes", None), (set, frozenset)):
+        # a plain set iterates in address order: give the exit hook a scheduler-owned order instead
+        gp = OrderedSet()
+        for p in list(pp.global_probes):  # pragma: no cover - always empty
+            gp.add(p)
+        pp.global_probes = gp
+    # (any other container -- a dict keyed by id, a list -- has an order of its own: left alone)
     SEAMS["clock"] = clock
-    SEAMS["global_probes"] = gp
+    SEAMS["global_probes"] = True
     return SEAMS
+
+
+def global_probe_list():
+    """The probes ptera's exit hook would deactivate, whatever container it keeps them in."""
+    import ptera.probe as pp
+
+    gp = getattr(pp, "global_probes", None)
+    if gp is None:
+        return None
+    if isinstance(gp, dict):
+        return [v if not isinstance(v, (int, str)) else k for k, v in gp.items()]
+    return list(gp)
 
 
 # ---------------------------------------------------------------------------
